@@ -191,7 +191,8 @@ func (c *Ctx) execCall(s *State, in ssa.Instruction, cc *ssa.CallCommon, res ssa
 			if res != nil {
 				rp.s.top().vals[res] = rv
 			}
-			if i == 0 && rp.s == s {
+			_ = i
+			if rp.s == s {
 				continue
 			}
 			forks = append(forks, rp.s)
@@ -311,6 +312,19 @@ func (c *Ctx) applyContract(s *State, in ssa.Instruction, fc *FuncContract, call
 	c.bindFreeVars(env, callee, binds)
 	pre := s.snapshot()
 	env.old = pre
+	for i, h := range fc.Holds {
+		key, base, ok := env.lockOf(h.Expr)
+		var alts []Term
+		if ok {
+			for _, l := range s.locks {
+				if l.Key == key && l.Write {
+					alts = append(alts, Eq(l.Base, base))
+				}
+			}
+		}
+		name := fmt.Sprintf("%s/holds@%s#%d:%s[%d]", fnKey(in.Parent()), otag(in), c.ordinal("requires", in), shortName(fc.Key), i+1)
+		c.oblige(s, "guard", name, Or(alts...), pos, "callee "+fc.Key+" requires the caller to hold "+h.Src, []string{"C19"})
+	}
 	for i, rq := range fc.Requires {
 		g := env.evalBool(rq.Expr)
 		c.reportEvalErrors(env, fc, rq.Src)
@@ -360,6 +374,10 @@ func (c *Ctx) applyContract(s *State, in ssa.Instruction, fc *FuncContract, call
 	}
 	env.s = s
 	env.results = nil
+	if len(fc.GhostAtExit) > 0 {
+		// the callee's ghost effects happen here, in terms of its parameters
+		c.applyGhostEnv(s, env, fc.GhostAtExit)
+	}
 	if r != nil {
 		if tu, ok := r.(Tu); ok {
 			for i, e := range tu.E {
